@@ -628,7 +628,11 @@ def _argsort(a, axis=-1, **kw):
         c = _cmp_scalar(a[i], a[j])
         return c if c else i - j
 
-    return _np.array(sorted(range(len(a)), key=functools.cmp_to_key(cmp)), dtype=int)
+    order = sorted(range(len(a)), key=functools.cmp_to_key(cmp))
+    out = _np.empty(len(order), dtype=object)      # an object array of python ints: a symbolic mask may index it later
+    for i, v in enumerate(order):
+        out[i] = int(v)
+    return out.view(SymArray)
 
 
 def _arg_extreme(a, axis, less):
